@@ -428,7 +428,8 @@ static int apply(struct dthread *t) {
             break;
         case DS_JOIN:
             if (t->obj < 0) {
-                r = ESRCH;
+                r = ESRCH; /* not the id of a thread created under the scheduler (e.g. an unset pthread_t) */
+                G.misuse++;
             } else if (t->obj == t->ord) {
                 r = EDEADLK;
                 G.misuse++;
@@ -536,6 +537,9 @@ static int apply(struct dthread *t) {
         case DS_YIELD:
             log_event(t->ord, DS_YIELD, '-', -1, t->aux);
             break;
+        case DS_CREATE_RET:
+            log_event(t->ord, DS_CREATE_RET, 't', t->obj, 0);
+            break;
         default:
             die("bad op");
     }
@@ -632,6 +636,11 @@ int __wrap_pthread_create(pthread_t *th, const pthread_attr_t *attr, void *(*fn)
     }
     n->real_created = 1;
     *th = n->tid;
+    if (G.cfg.create_return_point) {
+        /* the new thread may run (even finish) before pthread_create returns to its caller */
+        post(s, DS_CREATE_RET, n->ord, -1, 0);
+        ds_point(s);
+    }
     return 0;
 }
 
@@ -916,6 +925,13 @@ int ds_diverged(void) {
 int ds_misuse_count(void) {
     return G.misuse;
 }
+int ds_thread_state(int ord) {
+    if (ord < 0 || ord >= G.nth) {
+        return -1;
+    }
+    return (G.th[ord]->exited ? DS_TS_EXITED : 0) | (G.th[ord]->joined ? DS_TS_JOINED : 0) |
+           (G.th[ord]->detached ? DS_TS_DETACHED : 0);
+}
 int ds_thread_count(void) {
     return G.nth;
 }
@@ -956,7 +972,7 @@ const struct ds_event *ds_event_at(size_t i) {
 }
 
 static const char *KIND_NAMES[DS_KIND_COUNT] = {"start",  "exit", "create", "join",      "detach", "lock",  "trylock", "unlock", "wait",
-                                                "wake",   "signal", "broadcast", "once", "sleep",  "atomic", "yield",  "spurious"};
+                                                "wake",   "signal", "broadcast", "once", "sleep",  "atomic", "yield",  "spurious", "created"};
 
 const char *ds_kind_name(int kind) {
     return (kind >= 0 && kind < DS_KIND_COUNT) ? KIND_NAMES[kind] : "?";
